@@ -385,6 +385,7 @@ def run(ck, binary, run_impl, replay):
         ck.broken.append("harness-run:wire-exh")
         return {"evaluations": len(outs), "nontrivial": 0, "traces": 0, "rule": "wire: harness crashed"}
     nper = len(exh_inputs())
+    fns, codes_list = [], []
     for si, (nm, eo) in enumerate(exh_sets):
         sub_c = exh[si * nper:(si + 1) * nper]
         sub_o = o_exh[si * nper:(si + 1) * nper]
@@ -399,17 +400,20 @@ def run(ck, binary, run_impl, replay):
                 ck.violation("wire:parse:clauses=2:exh:%s" % ("ok" if "fields" in o else o.get("err")),
                              {"part": NAME, "case": strip(c), "impl_out": o, "clause": CLAUSES[2]})
             codes.append(code_obs(o, packed))
+        codes_list.append(codes)
         if eo is None:
-            fn = "(wire_exh [] [] [] 0%Z)"
+            fns.append("(wire_exh [] [] [] 0%Z)")
         else:
-            fn = "(wire_exh %s %s %s %s%%Z)" % (cnums(eo["msg"]), cnums(sorted(eo["packed"])),
-                                               coq_list("(%d,%d)" % kv for kv in sorted(eo["packed"].items())),
-                                               coq_z(eo["max"]))
-        fails = exh_eval(ck, "wire_exh_" + nm, HEADER, fn, codes)
-        for idx in fails[:5]:
-            c, o = sub_c[idx], sub_o[idx]
-            ck.violation("wire:parse:clauses=1:exh:%s" % ("ok" if "fields" in o else o.get("err")),
-                         {"part": NAME, "case": strip(c), "impl_out": o, "clause": CLAUSES[1]})
+            fns.append("(wire_exh %s %s %s %s%%Z)" % (cnums(eo["msg"]), cnums(sorted(eo["packed"])),
+                                                     coq_list("(%d,%d)" % kv for kv in sorted(eo["packed"].items())),
+                                                     coq_z(eo["max"])))
+    if exh_sets:
+        fails = exh_eval(ck, "wire_exh", HEADER, fns, codes_list)
+        for si in range(len(exh_sets)):
+            for idx in fails[si][:5]:
+                c, o = exh[si * nper + idx], o_exh[si * nper + idx]
+                ck.violation("wire:parse:clauses=1:exh:%s" % ("ok" if "fields" in o else o.get("err")),
+                             {"part": NAME, "case": strip(c), "impl_out": o, "clause": CLAUSES[1]})
     ck.log("wire: exhaustive short inputs evaluated")
     o_cases, o_prims = outs[:len(cases)], outs[len(cases):]
     if len(outs) != len(cases) + len(prims):
